@@ -613,8 +613,32 @@ int main(int argc, char **argv) {
         int nconn = (int) r.range(1, 3);
         for (int i = 0; i < nconn; ++i) {
             ConnSpec cn; cn.id = 101 + i; cn.orth = false;
-            bool okc = r.coin(1, 2) ? (vs::hugPoint(r, s, rp, 0.125, cn.sx, cn.sy) && vs::hugPoint(r, s, rp, 0.125, cn.dx, cn.dy))
-                                    : (vs::freePoint(r, s, rp, 0.125, cn.sx, cn.sy, true) && vs::freePoint(r, s, rp, 0.125, cn.dx, cn.dy, true));
+            // an endpoint exactly ON the outline of a routing polygon (strictly inside one of its sides, not strictly inside
+            // any other polygon): outside every shape, but the sweep's touching rule applies to it
+            long lastPoly = -1;
+            auto onOutline = [&](double &ox, double &oy, long usePoly = -1) {
+                for (int t = 0; t < 40; ++t) {
+                    long qi = usePoly >= 0 ? usePoly : (long) (r.next() % rp.size());
+                    lastPoly = qi;
+                    const vs::DPoly &q = rp[(size_t) qi];
+                    double lx = q[3].x, ly = q[3].y, hx = q[1].x, hy = q[1].y;
+                    int side = (int) r.range(0, 3);
+                    long nx = (long) ((hx - lx) * 2), ny = (long) ((hy - ly) * 2);
+                    double px, py;
+                    if (side < 2) { if (ny < 2) continue; px = side == 0 ? lx : hx; py = ly + (double) r.range(1, ny - 1) / 2.0; }
+                    else { if (nx < 2) continue; py = side == 2 ? ly : hy; px = lx + (double) r.range(1, nx - 1) / 2.0; }
+                    bool ok = true;
+                    for (auto &o : rp) if (vs::inClosedD(o, px, py, -1e-6)) ok = false;
+                    if (ok) { ox = px; oy = py; return true; }
+                }
+                return false;
+            };
+            bool okc;
+            int mode = (int) r.range(0, 5);
+            if (mode == 0) okc = onOutline(cn.sx, cn.sy) && onOutline(cn.dx, cn.dy, r.coin(2, 3) ? lastPoly : -1);     // often both on the same polygon
+            else if (mode == 1) okc = onOutline(cn.sx, cn.sy) && vs::freePoint(r, s, rp, 0.125, cn.dx, cn.dy, true);
+            else if (mode <= 3) okc = vs::hugPoint(r, s, rp, 0.125, cn.sx, cn.sy) && vs::hugPoint(r, s, rp, 0.125, cn.dx, cn.dy);
+            else okc = vs::freePoint(r, s, rp, 0.125, cn.sx, cn.sy, true) && vs::freePoint(r, s, rp, 0.125, cn.dx, cn.dy, true);
             if (!okc || (cn.sx == cn.dx && cn.sy == cn.dy)) continue;
             cs.push_back(cn);
         }
